@@ -41,23 +41,60 @@ def run(ctx: Ctx):
 
 
 def pooling_helper(ctx: Ctx):
+    """requests_exist_and_match_membership accepts only if EVERY request of the plan exists and grants the vehicle access:
+    on each accepting path a universal (`all(...)`) over the plan's requests whose element test is the grant — in whichever
+    spelling (all(map(f, reqs)) with a local f, a generator, two passes). An existential (`any`) over the grant is the
+    violation; anything else is not recognised."""
     repo = ctx.repo
     outer = repo.func(DOPS, "requests_exist_and_match_membership")
-    inner = repo.func(DOPS, "requests_exist_and_match_membership.exists_and_match_membership")
     sim, veh, reqs = outer.params[:3]
-    ps = [p for p in flow.paths(outer.node) if p.kind == "return"]
-    ok = flow.values_match(ps, f"all(map(exists_and_match_membership, {reqs}))")
-    ctx.check(ok, "D1", "GD.MEM-helper", "requests_exist_and_match_membership = all(map(check, requests))", outer,
-              why_bad=f"returns {flow.dump(ps[0].value)[:100] if ps else '?'}", construct="requests_exist:all-map")
-    rid = inner.params[0]
-    want = f"{sim}.requests.get({rid}).membership.grant_access_to_membership({veh}.membership)"
-    acc = gd.accepting_paths(inner)
-    ctx.require(len(acc) >= 1, "exists_and_match_membership has no accepting path")
-    for p, atoms in acc:
-        ok = any(pol is True and states.ndump(a) == want for a, pol in atoms)
-        ctx.check(ok, "D1", "GD.MEM-helper", "per-request check accepts only if the request grants the vehicle access", inner, p.end,
-                  why_bad=f"accepting path [{p.cond_text()[:150]}] returns {flow.dump(p.value)[:100]}", construct="exists_and_match:MEM")
+    grant_tail = f".membership.grant_access_to_membership({veh}.membership)"
 
+    def universal_grant(a: ast.AST):
+        """'all' | 'any' | None : does atom `a` quantify the grant over the plan's requests?"""
+        if not (isinstance(a, ast.Call) and isinstance(a.func, ast.Name) and a.func.id in ("all", "any") and len(a.args) == 1):
+            return None
+        g = flow.canon(a.args[0])
+        if not isinstance(g, (ast.GeneratorExp, ast.ListComp)) or len(g.generators) != 1:
+            return None
+        src = flow.dump(g.generators[0].iter)
+        if reqs not in src:
+            return None
+        elt = g.elt
+        txt = flow.dump(elt)
+        if grant_tail in txt:
+            return a.func.id
+        # all(map(f, reqs)) with a local function f: its accepting paths must imply the grant
+        if isinstance(elt, ast.Call) and isinstance(elt.func, ast.Name):
+            f = repo.func_opt(DOPS, f"{outer.qualname}.{elt.func.id}")
+            if f is not None and f.params:
+                want = f"{sim}.requests.get({f.params[0]}){grant_tail}"
+                acc = gd.accepting_paths(f)
+                if acc and all(any(pol is True and states.ndump(x) == want for x, pol in atoms) for _, atoms in acc):
+                    return a.func.id
+                if acc:
+                    for p2, atoms in acc:
+                        if not any(pol is True and states.ndump(x) == want for x, pol in atoms):
+                            ctx.violation("D1", "GD.MEM-helper", "per-request check accepts only if the request grants the vehicle access", f, p2.end,
+                                          why=f"accepting path [{p2.cond_text()[:150]}] returns {flow.dump(p2.value)[:100]}", construct="exists_and_match:MEM")
+                    return "checked"
+        return None
+
+    acc = gd.accepting_paths(outer)
+    ctx.require(len(acc) >= 1, "requests_exist_and_match_membership has no accepting path")
+    for p, atoms in acc:
+        kinds = [universal_grant(a) for a, pol in atoms if pol is True]
+        if "all" in kinds:
+            ctx.ok("D1", "GD.MEM-helper", "requests_exist_and_match_membership accepts only if every request of the plan grants the vehicle access", outer, p.end,
+                   why="a universal over the plan's requests with the grant as element test holds on the accepting path")
+        elif "checked" in kinds:
+            continue
+        elif "any" in kinds:
+            ctx.violation("D1", "GD.MEM-helper", "requests_exist_and_match_membership accepts only if every request of the plan grants the vehicle access", outer, p.end,
+                          why=f"accepting path [{p.cond_text()[:160]}] needs only SOME request to grant access (any(...)): a plan mixing fleets is accepted as soon as one request is the vehicle's",
+                          construct="requests_exist:existential")
+        else:
+            raise AnalysisError(f"requests_exist_and_match_membership: accepting path returning {flow.dump(p.value)[:100]} is not a recognised universal over the requests")
 
 def membership_semantics(ctx: Ctx):
     """grant_access_to_membership(other): public or non-empty intersection; _id(id): public or id in set."""
